@@ -546,7 +546,11 @@ impl Oracle for ListingProbe {
         for n in tree.nodes.iter().filter(|n| n.is_dir && vcx.vol.in_range(n.ent.cluster)) {
             dirs.push((n.path.split('/').filter(|s| !s.is_empty()).map(|s| s.to_string()).collect(), DirLoc::Chain(n.ent.cluster)));
         }
-        for (path, loc) in dirs {
+        // (a healthy tree has a handful of directories; a medium that exposes garbage as directories has thousands)
+        for (path, loc) in dirs.into_iter().take(40) {
+            if crate::engine::past_deadline() {
+                return;
+            }
             let leaked: Vec<&'static str> = path.iter().map(|s| &*Box::leak(s.clone().into_boxed_str())).collect();
             for mut v in check_dir(&img, &vcx.vol, loc, &leaked, &uni, &Value::Null) {
                 v.scenario = sc.name.clone();
@@ -659,6 +663,9 @@ impl Oracle for Matrix {
             }
         }
         for cell in cells {
+            if crate::engine::past_deadline() {
+                return;
+            }
             let mut h2 = hist.to_vec();
             h2.push(cell);
             let (mut w2, st) = sc.replay_observed(&h2);
